@@ -31,6 +31,11 @@ def three_peer_confs():
 def build(name, params, cls=None):
     if name == 'established':
         w = S.established(initiator=params.get('initiator', 'A'), cls=cls)
+    elif name == 'established-ah':
+        ah = dict(ipsec_proto='ah', mode='tunnel')
+        w = S.established(S.base_confs(a_entry=dict(ah, my_subnet='10.1.0.0/24', peer_subnet='10.2.0.0/24'),
+                                       b_entry=dict(ah, my_subnet='10.2.0.0/24', peer_subnet='10.1.0.0/24')),
+                          initiator=params.get('initiator', 'A'), cls=cls)
     elif name == 'empty':
         w = S.new_world(cls=cls)
     elif name == 'three':
@@ -65,6 +70,9 @@ scen('established', dict(initiator='A', budget=dict(trig=2, fault=0 if ck.quick 
 scen('established', dict(initiator='A', budget=dict(trig=2, fault=1)), ('rekey_ike', 'delete_ike'))
 # kernel expiry notices while a liveness check or another exchange is outstanding
 scen('established', dict(initiator='A', budget=dict(trig=2, fault=0)), ('dpd', 'soft', 'hard'))
+# status queries in between (what a query reports afterwards is the table as it is then), with ESP and with AH CHILD_SAs
+scen('established', dict(initiator='A', budget=dict(trig=1, fault=0, status=1)), ('soft', 'acquire', 'rekey_ike', 'status'), faults=())
+scen('established-ah', dict(initiator='A', budget=dict(trig=1, fault=0, status=1)), ('soft', 'acquire', 'status'), faults=())
 # simultaneous initiation by both peers
 scen('empty', dict(budget=dict(trigA=1, trigB=1, fault=1 if ck.quick else 2)), ('acquire',))
 # a third peer
@@ -349,8 +357,14 @@ def representative_worlds():
 
 def run_scenario(i):
     sc = SCENARIOS[i]
-    ex = Explorer(lambda: build(sc['name'], sc['params']), enabled_for(sc), P.apply_event, monitors=MONITORS,
-                  state_monitors=[sm_status] + ([sm_ended_removed] if sc['timeouts'] else []), extra_fn=P.budget_key,
+    # with status queries in the alphabet the status is compared after EVERY transition (not once per distinct state): what a
+    # query leaves behind is not part of the canonical state, so histories that differ only in where the query fell are merged
+    mons = MONITORS + ([lambda pre, ev, post: sm_status(post)] if 'status' in sc['kinds'] else [])
+    # ... and where in the history the queries fell is made part of the key, so that a history with an early query is continued
+    extra = P.budget_key if 'status' not in sc['kinds'] else \
+        (lambda w: P.budget_key(w) + tuple(i for i, e in enumerate(w.history) if e[0] == 'status'))
+    ex = Explorer(lambda: build(sc['name'], sc['params']), enabled_for(sc), P.apply_event, monitors=mons,
+                  state_monitors=[sm_status] + ([sm_ended_removed] if sc['timeouts'] else []), extra_fn=extra,
                   abstraction_checks=30 if ck.quick else 100, replay_every=50 if ck.quick else 200,
                   max_states=(6000 if ck.quick else 400000), label='%s/%s' % (sc['name'], ','.join(sc['kinds'])),
                   continuous_init_fn=lambda: build(sc['name'], sc['params'], cls=ContinuousWorld))
